@@ -89,6 +89,19 @@ def run_batch(ctx, n, with_model=True):
                                   f"{text[:140]}", {"text": text, "layout": layout, "env": common.enc_env(env), "module": out, "evaluator": b})
                 if m is not None and not random_prog and m["out"][i] != b:
                     ctx.tie_break("out", {"text": text, "env": common.enc_env(env), "impl": b, "model": m["out"][i]})
+    # finding family K2 (decimal overflowing binary64): evaluator and generated module must still behave alike
+    text = 'def e { splitters: u if x < %s.0 { return "a" weighted 1 } else { return "b" weighted 1 } }' % ("9" * 400)
+    ev_out = common.outcome_of(lambda: ExperimentEvaluator(text)(u=1, x=1.0))
+    for expose in (False, True):
+        try:
+            fn = exec_module(generate_code(text, expose), "e")
+            mod_out = common.outcome_of(lambda: fn(u=1, x=1.0))
+        except Exception as ex:  # noqa
+            mod_out = {"e": common.classify_exc(ex)}
+        ctx.count("k2-alike")
+        if ("g" in mod_out) != ("g" in ev_out) or ("e" in mod_out and mod_out != ev_out):
+            ctx.violation(f"overflowing decimal literal: generate_code({'exposed' if expose else 'nested'}) gives {mod_out}, the evaluator gives {ev_out}",
+                          {"text": text[:80] + "…", "module": mod_out, "evaluator": ev_out})
     # finding family K1: the helper's own name as experiment name in the exposed layout
     text = 'def choose_experiment_variant { splitters: u return "a" weighted 1, "b" weighted 1 }'
     try:
